@@ -151,6 +151,8 @@ fn check_entry_c12(e: &Entry, max_len: usize, max_calls: usize, stats: &mut Stat
     let is_clr = |o: &Out| matches!(o, Out::Err { custom: Some(m), .. } if m == "call limit reached");
     for rule in e.rules {
         for input in &inputs {
+          for detail in [false, true] {
+            pest::set_error_detail(detail);
             pest::set_call_limit(None);
             let inf = (e.run)(rule, input);
             if matches!(inf, Out::Panic(_) | Out::NoSuchRule) {
@@ -184,7 +186,7 @@ fn check_entry_c12(e: &Entry, max_len: usize, max_calls: usize, stats: &mut Stat
                 }
                 let same = r == inf;
                 if !same && !is_clr(&r) {
-                    stats.violation_class("generated.silent-change", json!({"kind": "limit-changes-result-silently", "backend": "generated", "grammar": e.grammar, "rule": rule, "input": input, "limit": l, "calls_needed": c, "unlimited": show(&inf), "limited": show(&r), "features": features()}));
+                    stats.violation_class("generated.silent-change", json!({"kind": "limit-changes-result-silently", "backend": "generated", "error_detail": detail, "grammar": e.grammar, "rule": rule, "input": input, "limit": l, "calls_needed": c, "unlimited": show(&inf), "limited": show(&r), "features": features()}));
                     break;
                 }
                 if same && completed_at.is_none() {
@@ -197,7 +199,9 @@ fn check_entry_c12(e: &Entry, max_len: usize, max_calls: usize, stats: &mut Stat
                     }
                 }
             }
-            stats.outcome(&format!("gen:calls{}", c.min(12)));
+            stats.outcome(&format!("gen:calls{}{}", c.min(12), if detail { ":detail" } else { "" }));
+          }
+          pest::set_error_detail(false);
         }
     }
 }
